@@ -6,9 +6,18 @@ import Cactus.Lemmas.Table
 
 The documentation says that removing an adopted handle without calling `unadopt` is safe and can
 only leak.  It is not: the orphan test trusts the recorded counts, so a stale record explains away
-a handle the program still holds and a reachable object is destroyed.  `C13_counterexample` is the
-machine-checked witness on the model; the harness replays the same history on the real code on
-every run (corpus `d4_elided_unadopt.ops`).
+a handle the program still holds and a reachable object is destroyed.  This file contains:
+* `C13_counterexample` — the machine-checked witness on the model (a 9-call history); the harness
+  replays the same history on the real code on every run (corpus `d4_elided_unadopt.ops`);
+* what remains true: `C13_partial_purge_removes_target` (one-step), `C13_partial` (a stale record is
+  dangerous only if owner and target both lie inside a group that passes the orphan test),
+  `C13_partial_actions_need_no_contract`, `C13_partial_other_frames_need_no_contract`,
+  `C13_contract_is_absence_of_stale_records`;
+* a positive instance of `C13_partial`: a forgotten `unadopt` outside the collected group, nothing
+  destroyed prematurely.
+Not proved (false): safety of arbitrary histories with elided `unadopt`.
+Also defines `runWith` (`run` with an explicit step budget), used by `Props/C01.lean` and
+`Props/C03.lean`.
 -/
 namespace Cactus
 open State
@@ -58,9 +67,128 @@ or target stays outside every collected group can at most keep garbage alive —
 "may leak".  In particular the repository's own `leak_with_elided_unadopt` shape (the removed handle
 was the target's last one, so the target dies and purges the record) is covered. -/
 
-theorem C13_partial : type_of% @stale_record_harmless_outside_group := @stale_record_harmless_outside_group
-theorem C13_partial_actions_need_no_contract : type_of% @applyAct_invS := @applyAct_invS
+/-- **C13, the part that remains true** (`stale_record_harmless_outside_group` in
+`Cactus.Lemmas.LocalContract`): `s` is about to run `<Rc as Drop>::drop` of a handle to `o`; if no
+stale pair `(a, b)` has both `a` and `b` in the group traced from `o` whenever that group passes the
+orphan test (`s1` is the state in which the trace runs: frame popped, count decremented), the step
+keeps the safety invariant `InvS` — no contract assumed anywhere else -/
+theorem C13_partial (s : State) (hI : s.Inv) (hS : s.InvS)
+    (herr : s.err = none) (o : Nat) (rest : List Frame) (hst : s.stack = Frame.rcDrop o :: rest)
+    (hstale : ∀ ob n, s.cell o = some ob → ob.strong = .cnt (n + 2) →
+      let s1 := ({ s with stack := rest } : State).setObj o { ob with strong := .cnt (n + 1) }
+      (cycleRefs s1 o).cmap.isEmpty = false →
+      hasExternalOwners s1 (cycleRefs s1 o).cmap = false →
+      ∀ a b, s.Stale a b →
+        ¬ (a ∈ (cycleRefs s1 o).visited ∧ b ∈ (cycleRefs s1 o).visited)) :
+    (step s).InvS :=
+  stale_record_harmless_outside_group s hI hS herr o rest hst hstale
+
+/-- every user-level action (top level or inside a destructor) preserves `InvS` without any
+contract (`applyAct_invS`) -/
+theorem C13_partial_actions_need_no_contract (s : State) (fh fw : List Nat) (a : Act)
+    (hI : s.Inv) (hS : s.InvS) : (applyAct s fh fw a).InvS := applyAct_invS s fh fw a hI hS
+
+/-- so does every machine step whose top frame is not an `rcDrop` (`frames_need_no_contract`) -/
+theorem C13_partial_other_frames_need_no_contract (s : State) (hI : s.Inv) (hS : s.InvS)
+    (hf : ∀ o rest, s.stack ≠ .rcDrop o :: rest) : (step s).InvS :=
+  frames_need_no_contract s hI hS hf
 theorem C13_contract_is_absence_of_stale_records (s : State) : s.P ↔ ∀ a b, ¬ s.Stale a b :=
   P_iff_no_stale s
+
+
+/-! ## A positive instance of `C13_partial`: a forgotten `unadopt` outside the collected group
+
+`a` (object 0) adopts and holds `b` (object 1); x ↔ y (objects 2, 3) is a separate two-cycle.  The
+program takes `b`'s handle out of `a` without `unadopt` — leaving the stale record `a → b` — keeps it,
+drops its handle to y and then its handle to x, which collects the group {x, y}.
+`elidedOutsideStart` is the state in which that last `drop` has pushed its `rcDrop 2` frame. -/
+
+def elidedOutsideBuild : List (Op × List Nat) :=
+  [(.act .new, []), (.act .new, []),
+   (.act (.clone 1), []), (.act (.link 2 0), []),     -- a holds and adopts b
+   (.act .new, []), (.act .new, []),
+   (.act (.clone 3), []), (.act (.link 4 2), []),     -- x holds and adopts y
+   (.act (.clone 2), []), (.act (.link 4 3), []),     -- y holds and adopts x
+   (.act (.take 0 0), []),                            -- b's handle taken out of a, no unadopt
+   (.act (.drop 3), [])]                              -- program drops its handle to y
+
+def elidedOutsideStart : State :=
+  applyOp ((run elidedOutsideBuild).begin []) (.act (.drop 2))
+
+
+theorem elidedOutsideStart_reachable : Reachable elidedOutsideStart :=
+  .op (.act (.drop 2)) [] (run_reachable elidedOutsideBuild) (by decide +kernel)
+
+/-- the state: the stale record `a → b` (`F a b = 1` but `a`'s value holds no handle to `b`), two
+program handles to `b` -/
+example : elidedOutsideStart.err = none ∧ elidedOutsideStart.stack = [.rcDrop 2]
+    ∧ elidedOutsideStart.roots = [0, 1, 1]
+    ∧ elidedOutsideStart.F 0 1 = 1 ∧ elidedOutsideStart.H 0 1 = 0 := by decide +kernel
+
+theorem elidedOutsideStart_stale : elidedOutsideStart.Stale 0 1 := by
+  unfold State.Stale; decide +kernel
+
+/-- the safety invariant holds in that state (not via the contract, which is broken: directly, the
+quantifiers bounded by the heap length through `InvR`) -/
+theorem elidedOutsideStart_invS : elidedOutsideStart.InvS := by
+  intro he
+  have hR := reachable_InvR elidedOutsideStart_reachable he
+  have hlen : elidedOutsideStart.heap.length = 4 := by decide +kernel
+  have hst : elidedOutsideStart.stack = [.rcDrop 2] := by decide +kernel
+  refine ⟨fun o ho => ?_, fun o hp hl => ?_, fun o => ?_⟩
+  · have key : ∀ o, o < 4 → 0 < elidedOutsideStart.ext o + elidedOutsideStart.inHeap o →
+        elidedOutsideStart.isLive o = true := by decide +kernel
+    by_cases hlt : o < 4
+    · exact key o hlt ho
+    · have := (hR o (by omega)).1; omega
+  · have key : ∀ o, o < 4 → 0 < elidedOutsideStart.pend o →
+        elidedOutsideStart.isLive o = true := by decide +kernel
+    by_cases hlt : o < 4
+    · rw [key o hlt hp] at hl; cases hl
+    · have := (hR o (by omega)).1; omega
+  · rw [hst]; rfl
+
+/-- `C13_partial` applies to the collecting step although the state contains a stale record: its
+hypothesis only asks that no stale pair lies inside the traced group `[3, 2]` -/
+theorem C13_partial_instance : (step elidedOutsideStart).InvS := by
+  apply C13_partial elidedOutsideStart (reachable_Inv elidedOutsideStart_reachable)
+    elidedOutsideStart_invS (by decide +kernel) 2 [] (by decide +kernel)
+  intro ob n hc hs
+  have hc' : elidedOutsideStart.cell 2 = some
+      { strong := .cnt 2, weak := 1, links := some [(⟨3, .fwd⟩, 1), (⟨3, .bwd⟩, 1)],
+        value := some { vid := 2, held := [3], weaks := [], script := [], panics := false },
+        freed := false } := by decide +kernel
+  rw [hc'] at hc
+  cases hc
+  cases hs
+  intro s1 _ _ a b hab ⟨ha, hb⟩
+  have hv : (cycleRefs s1 2).visited = [3, 2] := by decide +kernel
+  rw [hv] at ha hb
+  have key : ∀ a ∈ [3, 2], ∀ b ∈ [3, 2],
+      ¬ (elidedOutsideStart.isLive a = true ∧ elidedOutsideStart.H a b < elidedOutsideStart.F a b) := by
+    decide +kernel
+  exact key a ha b hb hab
+
+/-- the contract does not hold in that state, so `C01`/`C02` say nothing about it -/
+example : ¬ elidedOutsideStart.P :=
+  fun h => (C13_contract_is_absence_of_stale_records _).mp h 0 1 elidedOutsideStart_stale
+
+/-- what it yields: after the step that tears down {x, y}, every handle the program holds — in
+particular its two handles to `b`, the target of the stale record — designates a live object -/
+example : ∀ o ∈ (step elidedOutsideStart).roots, (step elidedOutsideStart).isLive o = true := by
+  have h := (C13_partial_instance (by decide +kernel)).1
+  intro o ho
+  apply h o
+  have : 0 < (step elidedOutsideStart).roots.count o := List.count_pos_iff.mpr ho
+  unfold State.ext
+  omega
+
+/-- the whole history by evaluation: only x and y are destroyed; a and b survive, the stale record
+merely stays in a's table (the documented "may leak", nothing worse) -/
+example : let s := run (elidedOutsideBuild ++ [(.act (.drop 2), [])])
+    s.err = none ∧ s.roots = [0, 1, 1]
+    ∧ s.log = [.traced 3 2 3, .traced 2 2 3, .destroyed 3, .destroyed 2, .freed 3, .freed 2]
+    ∧ s.isLive 0 = true ∧ s.isLive 1 = true ∧ s.F 0 1 = 1 ∧ s.H 0 1 = 0 := by
+  decide +kernel
 
 end Cactus
